@@ -278,14 +278,16 @@ impl Scenario for S1 {
                 continue;
             }
             let kind = if sw.chance(ietf_bias, ietf_bias + 2) { Kind::Ietf } else { *sw.pick(&KINDS) };
-            let key = match sw.below(4) {
+            let key = match sw.below(5) {
                 0 => vec![0u8; 32],
                 1 => vec![0xffu8; 32],
+                2 => st.data.boundary_words(32),
                 _ => st.data.bytes(32),
             };
-            let nonce = match sw.below(5) {
+            let nonce = match sw.below(6) {
                 0 => vec![0u8; kind.nonce_len()],
                 1 => vec![0xffu8; kind.nonce_len()],
+                2 | 3 => st.data.boundary_words(kind.nonce_len()),
                 _ => st.data.bytes(kind.nonce_len()),
             };
             if first.is_none() {
